@@ -16,7 +16,7 @@ from fractions import Fraction
 from vlib import common, simnet
 
 VFILE = "Properties/C15.v"
-VERSIONS = [(1, 0), (1, 1), (1, 2), (1, 3), (1, 4), (1, 5), (1, 10)]
+VERSIONS = [(1, 0), (1, 1), (1, 2), (1, 3), (1, 4), (1, 5), (1, 10), (0, 9), (2, 0), (2, 3)]
 
 
 def f32r(x):
@@ -116,7 +116,7 @@ def run(rep, tier, seed):
     rng = random.Random(seed)
     rep.coverage["rule"] = (
         "every *_command method x every subset of its optional arguments (light 4096, climate 1024, fan 64, ...; exhaustive in thorough, all subsets of size <= 2 plus "
-        "random larger ones in quick) x values {falsy, typical, extreme} x negotiated API versions {1.0,1.1,1.2,1.3,1.4,1.5,1.10}; durations at rounding boundaries; "
+        "random larger ones in quick) x values {falsy, typical, extreme} x negotiated API versions {0.9,1.0,1.1,1.2,1.3,1.4,1.5,1.10,2.0,2.3} x debug flag on/off; durations at rounding boundaries; "
         "execute_service over all argument types x API versions; the written frame is decoded with api_pb2; non-trivial = some optional argument supplied with a falsy value "
         "or a legacy API version; distinct by (method, arguments, version)")
     from translate import gen_commands
@@ -163,10 +163,10 @@ def run(rep, tier, seed):
                     else:
                         vals = values_for(str(p.annotation), rng)
                         kwargs[p.name] = vals[0] if rep_i == 0 else rng.choice(vals)
-                ver = rng.choice(VERSIONS) if name not in ("cover_command", "climate_command") else rng.choice([(1, 0), (1, 1), (1, 4), (1, 5)])
+                ver = rng.choice(VERSIONS) if name not in ("cover_command", "climate_command") else rng.choice([(1, 0), (1, 1), (1, 4), (1, 5), (0, 9), (2, 0), (2, 3)])
                 calls.append((name, kwargs, ver))
     # cover: every legacy combination
-    for ver in ((1, 0), (1, 1)):
+    for ver in ((1, 0), (1, 1), (0, 9), (2, 0)):
         for stop in (False, True):
             for pos in (None, 0.0, 1.0, 0.5):
                 for tilt in (None, 0.0, 0.7):
@@ -184,9 +184,11 @@ def run(rep, tier, seed):
             with net.patched():
                 for ver in sorted({v for _, _, v in calls}):
                     cli, tr = await simnet.connected_client(loop, net, api=ver)
-                    for name, kwargs, v in calls:
+                    for ci, (name, kwargs, v) in enumerate(calls):
                         if v != ver:
                             continue
+                        # what is written must not depend on the debug flag (every other call runs with it on)
+                        cli.set_debug(ci % 2 == 1)
                         n0 = len(tr.writes)
                         err = None
                         try:
